@@ -3,9 +3,8 @@
 //! Read the `windows` module for reference.
 
 use std::ffi::c_int;
-use std::io::{self, Write};
+use std::io::{self, BufRead, Write};
 use std::ptr::{self, NonNull, null_mut};
-use std::slice;
 
 use memchr_rs::memchr;
 
@@ -78,51 +77,49 @@ impl VirtualMemory for UnixVirtualMemory {
 
 pub struct UnixStdin;
 
+/// Reads one line (without its terminator) from a buffered reader.
+///
+/// Bytes that follow the newline stay in the reader's buffer, so the next
+/// call continues with the next line no matter how the input was chunked.
+fn read_line_from<'a, R: BufRead>(
+    reader: &mut R,
+    arena: &'a Arena,
+) -> Result<ArenaString<'a>, io::Error> {
+    let mut buf = ArenaString::with_capacity_in(8 * KIBI, arena);
+
+    loop {
+        let available = match reader.fill_buf() {
+            Ok(available) => available,
+            Err(err) if err.kind() == io::ErrorKind::Interrupted => continue,
+            Err(err) => return Err(err),
+        };
+        if available.is_empty() {
+            // EOF
+            break;
+        }
+
+        let index = memchr(b'\n', available, 0);
+        let line_end = index.min(available.len());
+        unsafe {
+            buf.as_mut_vec().extend_from_slice(&available[..line_end]);
+        }
+
+        if index < available.len() {
+            reader.consume(index + 1);
+            break;
+        }
+        reader.consume(line_end);
+    }
+
+    Ok(buf)
+}
+
 impl Stdin for UnixStdin {
     fn read_line<'a>(prompt: &Value<'a>, arena: &'a Arena) -> Result<ArenaString<'a>, io::Error> {
         print!("{prompt}");
         io::stdout().flush()?;
 
-        let mut cap = 8 * KIBI;
-        let mut buf = ArenaString::with_capacity_in(cap, arena);
-        let mut len = 0;
-
-        loop {
-            if len == cap {
-                cap *= 2;
-                buf.reserve_exact(cap - buf.capacity());
-            }
-
-            let count = cap - len;
-            let base = buf.as_ptr();
-
-            let n = unsafe {
-                libc::read(libc::STDIN_FILENO, base.add(len) as *mut libc::c_void, count)
-            };
-            if n < 0 {
-                return Err(io::Error::last_os_error());
-            }
-            if n == 0 {
-                // EOF
-                break;
-            }
-            let n = n.cast_unsigned();
-
-            len += n;
-
-            let hay = unsafe { slice::from_raw_parts(base, len) };
-            let index = memchr(b'\n', hay, len - n);
-            if index < len {
-                len = index;
-                break;
-            }
-        }
-
-        unsafe {
-            buf.as_mut_vec().set_len(len);
-        }
-
-        Ok(buf)
+        read_line_from(&mut io::stdin().lock(), arena)
     }
 }
 
